@@ -34,6 +34,24 @@ NOTHROW = {
     "SymEngine::UnivariateSeries::get_args": "returns an empty vector",
 }
 
+# Call sites whose callee cannot throw for the arguments passed *there*
+# (path-insensitive may-throw is too coarse).  One (caller overload, callee)
+# pair each, confirmed by reading; an entry that matches no call site is an
+# error (exit 2), so a stale entry cannot hide anything.
+SITE_NOTHROW = {
+    ("SymEngine::StrPrinter::bvisit(const SymEngine::Mul &)", "neg"):
+        "neg(p.second) is under the guard is_a<Integer>/is_a<Rational>(p.second)"
+        " and is_negative(): mul(-1, exact real) stays in Integer/Rational "
+        "arithmetic, whose handlers for these kinds have no throw",
+    ("SymEngine::StrPrinter::bvisit(const SymEngine::Mul &)",
+     "as_numer_denom"):
+        "the argument is x.get_coef(), statically an RCP<const Number>: of "
+        "NumerDenomVisitor's handlers only those for Integer (fallback), "
+        "Rational and Complex can run; they build Integers with integer(), "
+        "lcm() and exact Integer mul/div, and Complex::from_two_nums is "
+        "called with two Integers (it throws only for other kinds)",
+}
+
 # Classes whose objects cannot be created or received through the C API
 # (no C function constructs them, no C function returns them): their method
 # overriders are not candidates of virtual calls below the C API.
@@ -61,6 +79,7 @@ def run(loader, R, tier):
         if c not in prog.classes:
             raise AnalysisBroken("excluded class %s not found" % c)
     G = CallGraph(prog, V, excluded_classes=NOT_IN_C_API)
+    G.site_nothrow = dict(SITE_NOTHROW)
     R.explanation = (
         "For all 271 extern \"C\" functions of cwrapper.cpp: R42.1 checks "
         "the shape of every try/catch translation block; R42.2 computes the "
@@ -86,6 +105,9 @@ def run(loader, R, tier):
         R.exception(k, v)
     for k, v in NOT_IN_C_API.items():
         R.exception(k, "class outside the C API's object universe: " + v)
+    for (caller, callee), v in SITE_NOTHROW.items():
+        R.exception("%s -> %s()" % (caller, callee),
+                    "call site no-throw for its arguments: " + v)
 
     ec = [f for f in prog.functions.values()
           if f.get("externc") and f["file"].endswith("cwrapper.cpp")
@@ -156,6 +178,12 @@ def run(loader, R, tier):
                 "a C++ exception can escape %s: %s" % (
                     key, " -> ".join(chain)[:900]),
                 detail={"chain": chain})
+
+    for okey in SITE_NOTHROW:
+        if not G.site_nothrow_hits.get(okey):
+            raise AnalysisBroken(
+                "call-site summary %s -> %s() matches no call site any more"
+                % okey)
 
     # ---------------------------------------------------------------- R42.3
     nops = 0
